@@ -937,6 +937,18 @@ static void run_equiv(Json& js, vh::Rng& rng, long budget, bool big) {
             for (int i = 0; i < n; ++i) {
                 x[i] = gen(1.0);
             }
+            // every fourth real case: taps at a very small (or large) absolute scale with data at the opposite one - the sums are
+            // ordinary numbers, only the coefficients are far from unit scale
+            if (t % 4 == 1) {
+                static const double HS[] = {1e-17, 1e-18, 3e-16, 1e-30, 1e12};
+                const double hs = HS[rng.range(0, 4)];
+                for (int i = 0; i < nh; ++i) {
+                    h[i] *= hs;
+                }
+                for (int i = 0; i < n; ++i) {
+                    x[i] /= hs;
+                }
+            }
             if (gated) {   // bursts separated by stretches of exact zeros, several blocks long
                 for (int i = 0; i < n;) {
                     const int on = (int)rng.range(1, 2 * nh + 3), off = (int)rng.range(2 * nh, 9 * nh + 40);
@@ -977,8 +989,9 @@ static void run_equiv(Json& js, vh::Rng& rng, long budget, bool big) {
             for (int i = 0; i < nh; ++i) {
                 h[i] = cmplx_t(rng.gauss(), rng.gauss());
             }
+            const bool realin = (t % 3 == 2);   // complex taps driven through the real-input overload
             for (int i = 0; i < n; ++i) {
-                x[i] = cmplx_t(gen(1.0), gen(1.0));
+                x[i] = cmplx_t(gen(1.0), realin ? 0.0 : gen(1.0));
             }
             if (gated) {
                 for (int i = 0; i < n;) {
@@ -993,14 +1006,24 @@ static void run_equiv(Json& js, vh::Rng& rng, long budget, bool big) {
             FftFilter f2(h);
             block = f2.block_size();
             const arr_cmplx y1 = n ? f1.process(x) : arr_cmplx();
-            const arr_cmplx y2 = f2.process(x);
+            arr_cmplx y2;
+            arr_cmplx y1c = y1;
+            if (realin) {
+                // the real-input overload returns the real part of the filter's output
+                y2 = complex(f2.process(real(x)));
+                for (int i = 0; i < y1c.size(); ++i) {
+                    y1c[i].im = 0;
+                }
+            } else {
+                y2 = f2.process(x);
+            }
             olen = y2.size();
             long double hn = 0, xn = 0;
             for (int i = 0; i < nh; ++i) { hn += (long double)abs2(h[i]); }
             for (int i = 0; i < n; ++i) { xn += (long double)abs2(x[i]); }
             const double tol = 64 * 2.22e-16 * std::log2(2.0 * (nh + block)) * std::sqrt((double)hn) * std::sqrt((double)xn) + 1e-300;
             for (int i = 0; i < y2.size() && i < y1.size(); ++i) {
-                if (!(abs(y1[i] - y2[i]) <= tol) && fd < 0) {
+                if (!(abs(y1c[i] - y2[i]) <= tol) && fd < 0) {
                     fd = i;
                 }
             }
@@ -1051,7 +1074,7 @@ static void run_equiv(Json& js, vh::Rng& rng, long budget, bool big) {
 }
 
 static void emit_xcorr(Json& js, const std::vector<long>& ar, const std::vector<long>& ai, const std::vector<long>& br,
-                       const std::vector<long>& bi, bool cplx) {
+                       const std::vector<long>& bi, bool cplx, bool onearg = false) {
     const int n1 = ar.size(), n2 = br.size();
     std::vector<long> yr, yi;
     bool exact = true;
@@ -1071,14 +1094,14 @@ static void emit_xcorr(Json& js, const std::vector<long>& ar, const std::vector<
         arr_cmplx a(n1), b(n2), y;
         for (int i = 0; i < n1; ++i) { a[i] = cmplx_t(ar[i], ai[i]); }
         for (int i = 0; i < n2; ++i) { b[i] = cmplx_t(br[i], bi[i]); }
-        o = vh::outcome([&] { y = xcorr(a, b); });
+        o = vh::outcome([&] { y = onearg ? xcorr(a) : xcorr(a, b); });
         for (int i = 0; i < y.size(); ++i) {
             yr.push_back(conv(y[i].re));
             yi.push_back(conv(y[i].im));
         }
     } else {
         arr_real y;
-        o = vh::outcome([&] { y = xcorr(to_arr(ar), to_arr(br)); });
+        o = vh::outcome([&] { y = onearg ? xcorr(to_arr(ar)) : xcorr(to_arr(ar), to_arr(br)); });
         for (int i = 0; i < y.size(); ++i) {
             yr.push_back(conv(y[i]));
             yi.push_back(0);
@@ -1102,6 +1125,17 @@ static void run_xcorr(Json& js, vh::Rng& rng, int nmax, long sampled, int shard,
                 ai = rand_ints(rng, n1, -3, 3), bi = rand_ints(rng, n2, -3, 3);
             }
             emit_xcorr(js, ar, ai, br, bi, cplx);
+            if (n1 <= 12 && n2 <= 12) {   // small pairs: the other overload as well
+                if (cplx) {
+                    emit_xcorr(js, ar, std::vector<long>(n1, 0), br, std::vector<long>(n2, 0), false);
+                } else {
+                    emit_xcorr(js, ar, rand_ints(rng, n1, -3, 3), br, rand_ints(rng, n2, -3, 3), true);
+                }
+            }
+            if (n1 == n2) {   // autocorrelation overloads (one argument)
+                emit_xcorr(js, ar, std::vector<long>(n1, 0), ar, std::vector<long>(n1, 0), false, true);
+                emit_xcorr(js, ar, ai, ar, ai, true, true);
+            }
         }
     }
     for (long t = 0; t < sampled; ++t) {   // sampled larger pairs: sparse content keeps TLC's sums cheap
